@@ -3,6 +3,7 @@ package props
 // C02 — SAML responses are only ever delivered to registered endpoints.
 
 import (
+	"net/url"
 	"fmt"
 	"strings"
 	"testing"
@@ -52,7 +53,32 @@ func genC02Case(t *rapid.T) C02Case {
 	s := SSOCase{Spec: spec, Host: rapid.SampledFrom(reqHosts).Draw(t, "host")}
 	s.SP = rapid.IntRange(0, len(spec.SPs)-1).Draw(t, "sp")
 	s.Style = genXMLStyle(t)
-	att := func(label string) string { return rapid.SampledFrom(attackerURLs).Draw(t, label) }
+	// attacker URLs: foreign hosts, and pages on the *host* of one of the provider's own registered endpoints (a deep link
+	// handed over as "where to return to": registered is a whole URL, never a host)
+	ownHostURL := func(label string) string {
+		sp := spec.SPs[s.SP]
+		var locs []string
+		for _, a := range sp.ACS {
+			locs = append(locs, a.Location)
+		}
+		for _, l := range sp.SLO {
+			locs = append(locs, l.Location)
+		}
+		if len(locs) == 0 {
+			return attackerURLs[0]
+		}
+		u, err := url.Parse(rapid.SampledFrom(locs).Draw(t, label+"-own"))
+		if err != nil || u.Host == "" {
+			return attackerURLs[0]
+		}
+		return u.Scheme + "://" + u.Host + "/" + attackerMark + "/return-to?page=home"
+	}
+	att := func(label string) string {
+		if rapid.IntRange(0, 3).Draw(t, label+"-ownhost") == 0 {
+			return ownHostURL(label)
+		}
+		return rapid.SampledFrom(attackerURLs).Draw(t, label)
+	}
 	extra := func() string {
 		var parts []string
 		for _, name := range []string{"AssertionConsumerServiceURL", "acs", "Destination", "LogoutURL", "ReturnTo", "AcsUrl", "ProtocolBinding"} {
